@@ -17,11 +17,17 @@ def remarkable_dates(chk, tz):
                                     ("leaf valid from tomorrow until 9999", {}, now + regsim.DAY, FOREVER, False),
                                     ("leaf valid since the epoch, expired yesterday", {}, EPOCH, now - regsim.DAY, False),
                                     ("leaf valid since the epoch until 9999 (control)", {}, EPOCH, FOREVER, True),
+                                    ("an X.509 v1 root that expired yesterday", dict(root_nb=now - 3000 * regsim.DAY, root_na=now - regsim.DAY, root_v1=True), now - H, now + regsim.DAY, False),
+                                    ("an X.509 v1 root valid from tomorrow", dict(root_nb=now + regsim.DAY, root_na=now + 3000 * regsim.DAY, root_v1=True), now - H, now + regsim.DAY, False),
+                                    ("an X.509 v1 root, everything valid (control)", dict(root_v1=True), now - H, now + regsim.DAY, True),
+                                    ("a root that expired an hour ago", dict(root_nb=now - 3000 * regsim.DAY, root_na=now - H), now - H, now + regsim.DAY, False),
+                                    ("a leaf whose issuer name is spelled differently, expired yesterday", dict(), now - 30 * regsim.DAY, now - regsim.DAY, False),
                                     ("leaf valid until 2050-01-01 exactly, intermediate expired", dict(inter_nb=now - 100 * regsim.DAY, inter_na=now - regsim.DAY), now - H, Y2050, False),
                                     ("leaf valid until 2038-01-19, intermediate expired", dict(inter_nb=now - 100 * regsim.DAY, inter_na=now - regsim.DAY), now - H, max(Y2038, now + H), False)):
         base_kw = dict(root_nb=now - 1000 * regsim.DAY, root_na=now + 1000 * regsim.DAY, inter_nb=now - 100 * regsim.DAY, inter_na=now + 100 * regsim.DAY)
         base_kw.update(kw)
         p2 = regsim.PKI("RT", n_inter=1, **base_kw)
+        p2.leaf_issuer_respelled = "spelled differently" in what
         leaf = p2.leaf(regsim.name("real-clock leaf"), regsim.ec_key("helper_leaf").public_key(), nb=lnb, na=lna)
         try:
             vcc(x5c=p2.chain_der(leaf), pem_root_certs_bytes=[p2.root_pem()])
